@@ -52,6 +52,7 @@ impl Script {
                 "garbage" => Act::CertGarbage, "resign" => Act::Resign, "otherresign" => Act::CertOtherResign, "flipsig" => Act::FlipSig,
                 "flipkey" => Act::FlipKey, "fliprandom" => Act::FlipRandom, "flipcipher" => Act::FlipCipher, "seqminus1" => Act::SeqMinus1, "forgefinishedbad" => Act::ForgeFinishedBad, "insertcert" => Act::InsertCert, "closeclient" => Act::CloseClient, "closeserver" => Act::CloseServer, "atkske" => Act::AtkSke, "repeatsame" => Act::RepeatSame, "impostor" => Act::Impostor, "impostorchain" => Act::ImpostorChain, "extracert" => Act::ExtraCert,
                 x if x.starts_with("flipbody") => Act::FlipBody(num("flipbody")), x if x.starts_with("strip") => Act::StripExt(num("strip")),
+                x if x.starts_with("preinjectthird") => Act::PreInject3(num("preinjectthird") as u8),
                 x if x.starts_with("preinject") => Act::PreInject(num("preinject") as u8),
                 x if x.starts_with("refragtaillost") => Act::RefragTailLost(num("refragtaillost")), x if x.starts_with("refragevery") => Act::RefragEvery3(num("refragevery")), x if x.starts_with("refragoverlap") => Act::RefragOverlap(num("refragoverlap")), x if x.starts_with("inserths") => Act::InsertHs(num("inserths") as u8), x if x.starts_with("insertbefore") => Act::InsertHsBefore(num("insertbefore") as u8), x if x.starts_with("dropfirst") => Act::DropN(num("dropfirst") as u8),
                 x if x.starts_with("preinjectthird") => Act::PreInject3(num("preinjectthird") as u8), x if x.starts_with("impostorkey") => Act::ImpostorKey(num("impostorkey") as u8), x if x.starts_with("prehs") => Act::PreInjectHs(num("prehs") as u8),
@@ -426,7 +427,7 @@ pub async fn run_script_ticks(sc: &Script, max_ticks: u32) -> Option<Outcome> {
                     if let (Some(b), Some(r0)) = (body_for(t, &seen), parse_records(&dg).into_iter().next()) {
                         let sq = parse_hs(&r0.body).first().map(|m| m.seq).unwrap_or(next_seq_of_target);
                         pre.push(record_bytes(22, (r0.vmaj, r0.vmin), 0, r0.seq + 80, &hs_bytes(t, b.len() as u32, sq + seq_shift, 0, &b)));
-                        if t == 11 { second_cert = true; if exp_c.is_some() { foreign_cert_first = true; } }
+                        if t == 11 { second_cert = true; if exp_c.is_some() && sc.ce != 'b' { foreign_cert_first = true; } }
                         shift_now += 1;
                     }
                 }
@@ -585,7 +586,8 @@ pub async fn run_script_ticks(sc: &Script, max_ticks: u32) -> Option<Outcome> {
     // a clear-text record from a foreign address is as good as absent: the handshake around it completes and the endpoints keep
     // talking to each other (a transport that follows the source address of such a datagram stops reaching its peer).
     // Judged for application data at every stage and for alerts / handshake messages where the target holds keys.
-    if let Some((ct, k)) = third_party { if sc.rules.len() == 1 && (ct == 23 || matches!(k, 200 | 20)) && !(c.ep.letter() == 'C' && s.ep.letter() == 'C') {
+    // (baseline: the same script without the injection connects iff the client's pin is absent or right — the server never checks)
+    if let Some((ct, k)) = third_party { if sc.rules.len() == 1 && matches!(sc.ce, 'n' | 'o') && (ct == 23 || matches!(k, 200 | 20)) && !(c.ep.letter() == 'C' && s.ep.letter() == 'C') {
         fails.push((format!("rec:handshake-phase:third-party-record-disturbed-the-handshake:{ct}-before-{k}"), text.clone())); } }
     if foreign_cert_first && sc.rules.len() == 1 && c.ep.letter() != 'F' {
         fails.push((format!("role:client:non-matching-certificate-in-sequence-not-rejected:ended-{}", c.ep.letter()), text.clone())); }
@@ -597,7 +599,8 @@ pub async fn run_script_ticks(sc: &Script, max_ticks: u32) -> Option<Outcome> {
     // (a client the script closed is Closed, not Failed)
     if forged && c.ep.letter() != 'F' && !sc.rules.iter().any(|r| r.act == Act::CloseClient) { fails.push((format!("role:client:wrong-verify-data-not-rejected:ended-{}", c.ep.letter()), text.clone())); }
     // (in a multi-fault script the inserted message may never be reached in sequence — then Handshaking is a legitimate end)
-    if inserted_cert && c.expected.is_some() && (c.ep.letter() == 'C' || (sc.rules.len() == 1 && c.ep.letter() != 'F')) {
+    // (the inserted certificate is the attacker's: for `ce=b` — pinned to the attacker's fingerprint — it MATCHES, nothing to reject)
+    if inserted_cert && c.expected.is_some() && sc.ce != 'b' && (c.ep.letter() == 'C' || (sc.rules.len() == 1 && c.ep.letter() != 'F')) {
         fails.push((format!("role:client:non-matching-certificate-in-sequence-not-rejected:ended-{}", c.ep.letter()), text.clone()));
     }
     if let (Some(kc), Some(ks)) = (c.ep.keys(), s.ep.keys()) {
@@ -798,7 +801,10 @@ pub fn run(args: &Args) {
     // run loops left alone until their handshake deadline (30 s of real time), concurrently with everything below
     let deadline = super::c03::deadline::spawn_deadline_sessions();
     let mut rng = Rng::new(args.seed);
-    for sc in scripts(args.tier_thorough, &mut rng) {
+    let all_scripts = scripts(args.tier_thorough, &mut rng);
+    // every script the generators emit must survive text -> parse (that is what `--replay` is given)
+    for sc in &all_scripts { let back = Script::parse(&sc.text()); assert!(back == *sc, "script text does not parse back: {}", sc.text()); }
+    for sc in all_scripts {
         let mut done = false;
         for _ in 0..3 {
             if let Some(o) = rt.block_on(run_script(&sc)) {
